@@ -342,6 +342,7 @@ impl Recorded {
 }
 
 /// Build with the candidate recorder hook armed; returns what the selection loop reported.
+#[cfg(feature = "hooks")]
 pub fn build_recorded(cfg: &Config) -> (Outcome, Vec<Recorded>) {
     // the builder (and whatever earlier build its history contains) is prepared BEFORE the recorder is armed
     let b = match guarded(|| cfg.builder()) {
@@ -355,6 +356,13 @@ pub fn build_recorded(cfg: &Config) -> (Outcome, Vec<Recorded>) {
         .map(|c| Recorded { mask: mask_no(c.mask), score: c.score, size: c.size, modules: c.modules })
         .collect();
     (out, rec)
+}
+
+/// harness built without fast_qr's hook feature (release-profile child): nothing is recorded, the monitors fall back to
+/// what the public API shows
+#[cfg(not(feature = "hooks"))]
+pub fn build_recorded(cfg: &Config) -> (Outcome, Vec<Recorded>) {
+    (build(cfg), vec![])
 }
 
 /// A QRCode value assembled by hand from the public fields: `QRCode::default(size)` plus the module data; version,
